@@ -412,8 +412,10 @@ func genSegmap(r *vlib.R, emit func(string)) {
 				i = int(cache.VerifSegIndex(sm, pickPresent(r, sRef, p)))
 			}
 			emit(fmt.Sprintf("segmap clearseg %d", i))
-		default:
+		case x < 99:
 			emit("segmap clear")
+		default:
+			emit("segmap dump")
 		}
 	}
 	emit("segmap len")
